@@ -59,12 +59,56 @@ pub fn gen_type(rng: &mut Prng, depth: usize) -> ResolvedType {
     }
 }
 
+thread_local! {
+    static POOL: std::cell::Cell<Option<[u8; 32]>> = const { std::cell::Cell::new(None) };
+}
+
+/// Correlated mode: while a pool is set, most integers and byte arrays take their bytes from the
+/// start of the pool, so that different entries of one map (a `u128` and a `[u8; 16]`, a `u256`
+/// and a `[u8; 32]`, ...) carry the same content and print the same digits.
+pub fn set_pool(pool: Option<[u8; 32]>) {
+    POOL.with(|p| p.set(pool));
+}
+
+fn pool() -> Option<[u8; 32]> {
+    POOL.with(|p| p.get())
+}
+
+/// Types for correlated maps: the ones whose printed forms can coincide.
+pub fn gen_type_correlated(rng: &mut Prng) -> ResolvedType {
+    let wide = |rng: &mut Prng| -> ResolvedType {
+        match rng.below(8) {
+            0 => ResolvedType::from(UIntType::U128),
+            1 => ResolvedType::from(UIntType::U256),
+            2 => ResolvedType::byte_array(16),
+            3 => ResolvedType::byte_array(32),
+            4 => ResolvedType::from(UIntType::U64),
+            5 => ResolvedType::byte_array(8),
+            6 => ResolvedType::from(UIntType::U32),
+            _ => ResolvedType::byte_array(4),
+        }
+    };
+    match rng.below(6) {
+        0 | 1 | 2 => wide(rng),
+        3 => ResolvedType::tuple([wide(rng), wide(rng)]),
+        4 => ResolvedType::option(wide(rng)),
+        _ => ResolvedType::either(wide(rng), wide(rng)),
+    }
+}
+
 /// Big-endian bytes of an integer of `bits` bits (1..=256), drawn from patterns that matter to
 /// printers and parsers: zero, max, small numbers, powers of two and their neighbours, sparse bytes,
 /// all-zero 64-bit limbs between non-zero ones, leading zeros, single bytes, runs.
 pub fn gen_int_bytes(rng: &mut Prng, bits: u32) -> [u8; 32] {
     let mut b = [0u8; 32];
     let nbytes = ((bits + 7) / 8) as usize;
+    if let Some(p) = pool() {
+        if bits >= 8 && rng.below(5) != 0 {
+            // the first nbytes of the pool, as a big-endian number
+            b[32 - nbytes..].copy_from_slice(&p[..nbytes]);
+            return b;
+        }
+    }
     let lo = 32 - nbytes; // b[lo..] is the value
     let set_bit = |b: &mut [u8; 32], k: u32| b[31 - (k / 8) as usize] |= 1 << (k % 8);
     match rng.below(13) {
@@ -192,6 +236,11 @@ pub fn gen_value(rng: &mut Prng, ty: &ResolvedType) -> Value {
         return Value::tuple(vals);
     }
     if let Some((elem, n)) = ty.as_array() {
+        if elem.as_integer() == Some(UIntType::U8) && pool().is_some() && rng.below(5) != 0 {
+            let p = pool().unwrap();
+            let vals: Vec<Value> = (0..n).map(|i| Value::from(UIntValue::U8(p[i % 32]))).collect();
+            return Value::array(vals, elem.clone());
+        }
         if elem.as_integer() == Some(UIntType::U8) && rng.coin() {
             // byte arrays: uniformly random bytes, or one repeated byte (00, ff, random)
             let style = rng.below(4);
